@@ -170,6 +170,10 @@ def angle_interpolation(P, rep, rule="EXPR.angle"):
     rep.rule(rule, "interpolate_angle_across_zero(a1, a2, f) interpolates along the shorter arc: if |a2-a1| > pi the smaller angle is raised by "
                    "2*pi (a1 when a2 > a1, else a2), the result is (1-f)*a1' + f*a2' reduced to [0, 2*pi)")
     F = P.func("WorldBuilder::Utilities::interpolate_angle_across_zero")
+    miss = astq.missing_anchors(P, F, ["theta_1", "theta_2"])
+    if miss:
+        rep.unknown(rule, "interpolate_angle_across_zero: the parameters %s this rule is written over no longer exist (renamed?)" % miss)
+        return
     a1, a2, f = sp.symbols("a1 a2 f", real=True)
     env = {F.params[0]: a1, F.params[1]: a2, F.params[2]: f}
     results = {}
@@ -416,6 +420,11 @@ def ridge_alias_twins(P, rep, rule="ALIAS.twins"):
                    "the point itself (Pb1, c1, *_pt1) with 1 -> 2 substituted; the alias point is built as in the other alias wrappers; the "
                    "values of the nearer of the two are kept together (distance, spreading velocity, subducting velocity of the same point)")
     F = P.func("WorldBuilder::Utilities::calculate_ridge_distance_and_spreading")
+    miss = astq.missing_anchors(P, F, ["c1", "c2", "c", "Pb1", "Pb2", "check_point", "other_check_point", "compare_distance", "compare_distance1", "compare_distance2",
+                                       "spreading_velocity_at_ridge_pt", "subducting_velocity_at_trench_pt"])
+    if miss:
+        rep.unknown(rule, "calculate_ridge_distance_and_spreading: the locals %s this rule is written over no longer exist (renamed?)" % miss)
+        return
     chains = []
     for x in F.walk():
         if x.get("k") == "IfStmt" and not x.get("m"):
